@@ -694,6 +694,36 @@ func monC01(c *child.Ctx, replay json.RawMessage) {
 		cj := c.BeginV(k)
 		execC01Reused(c, r, f.Bytes, cj)
 	}
+	// frames whose CRC field (or its tail, or the payload) has been wiped with one value:
+	// zeros, ones, start bytes - "no CRC supplied" is not a valid CRC
+	nWipe := c.Share(c.Pick(2000, 40000))
+	for i := 0; i < nWipe; i++ {
+		f := gen.RandFrame(r)
+		for !gen.SafeMSMPayload(f.Type, len(f.Bytes)-6) || len(f.Bytes) > 300 {
+			f = gen.RandFrame(r)
+		}
+		g := append([]byte(nil), f.Bytes...)
+		from := []int{len(g) - 3, len(g) - 2, len(g) - 1, 3, 5}[i%5]
+		to := len(g)
+		if i%10 >= 5 && from < len(g)-3 {
+			to = len(g) - 3
+		}
+		val := []byte{0x00, 0xFF, 0xD3, 0x55}[(i/10)%4]
+		for p := from; p < to; p++ {
+			g[p] = val
+		}
+		if bytes.Equal(g, f.Bytes) || ref.CRC24Q(g[:len(g)-3]) == uint32(g[len(g)-3])<<16|uint32(g[len(g)-2])<<8|uint32(g[len(g)-1]) {
+			continue
+		}
+		in := append(append([]byte(nil), g...), f.Bytes...)
+		k := streamCase{Input: hexs(in), Note: fmt.Sprintf("bytes %d..%d of a frame := %#x, then the intact frame", from, to-1, val)}
+		cj := c.BeginV(k)
+		execC01Stream(c, k, cj)
+		kd := streamCase{Input: hexs(g), Direct: true, Note: k.Note}
+		cjd, _ := json.Marshal(kd)
+		execC01Direct(c, kd, cjd)
+		c.Count("frames_with_a_wiped_field", 1)
+	}
 	// single-frame decoding of a buffer in which the frame is NOT at the front: other
 	// data first (a line end, a NUL, the tail of an earlier message), then a complete
 	// valid frame, then sometimes more.  Whatever is returned typed and without an
@@ -1332,6 +1362,27 @@ func monC12(c *child.Ctx, replay json.RawMessage) {
 					g[p] = val
 					runFault(s, v, g, fmt.Sprintf("byte %d := %#x", p, val))
 					c.Count("byte_overwrites", 1)
+				}
+			}
+			// whole fields wiped: the three CRC bytes, the last two, the whole payload, the
+			// payload and the CRC, everything behind some point - all zeros, all ones, all
+			// 0xD3, a text (a line that went dead, a buffer that was never filled)
+			for _, from := range []int{len(f) - 3, len(f) - 2, 3, 3 + (len(f)-6)/2, len(f) - 4} {
+				for _, to := range []int{len(f), len(f) - 3} {
+					if from < 3 || from >= to {
+						continue
+					}
+					for _, val := range []byte{0x00, 0xFF, 0xD3, 'U'} {
+						g := append([]byte(nil), f...)
+						for p := from; p < to; p++ {
+							g[p] = val
+						}
+						if bytes.Equal(g, f) || ref.CRC24Q(g[:len(g)-3]) == uint32(g[len(g)-3])<<16|uint32(g[len(g)-2])<<8|uint32(g[len(g)-1]) {
+							continue
+						}
+						runFault(s, v, g, fmt.Sprintf("bytes %d..%d := %#x", from, to-1, val))
+						c.Count("fields_wiped", 1)
+					}
 				}
 			}
 			// random multi-bit sets, bursts, CRC-only, payload-only
